@@ -49,9 +49,14 @@ for cpu, unit, maxlen, note in (("tms9900", 2, 6, "discharged by C08/disasm_tms9
 GROUPS.append(Group(name="C08/disasm_range_msp430", unity="C08/u_range430.cpp", entry="h_range430",
                     functions=[("disasm_range_msp430_both", "disasm/msp430.cpp", "harness+2 loop-contracts, any range incl. the interrupt vector part (function text extracted verbatim; backs disasm_range_msp430 and _msp430x)"), ("disasm_msp430/disasm_msp430x", "disasm/msp430.cpp", "replaced by their contract (even length 2..8), discharged for msp430 by C08/disasm_msp430")],
                     loops="C08/range430.loops.json", expected_loops=2, unwind=20, checks=CH, timeout=900))
+for nm, extra in (("disasm_range_mips", []), ("disasm_range_mips.top_of_memory", ["TOP_ONLY"])):
+    GROUPS.append(Group(name="C08/%s" % nm, unity="C08/u_range_mips.cpp", entry="h_range_mips",
+                        functions=[("disasm_range_mips", "disasm/mips.cpp", "harness+loop-contract, any range%s (function text extracted verbatim)" % (" ending above 0xfffffffc" if extra else " ending at or below 0xfffffffc")), ("disasm_mips", "disasm/mips.cpp", "replaced by its contract (4-byte instructions)")],
+                        defines=extra, loops="C08/range_mips.loops.json", expected_loops=1, unwind=14, checks=CH, timeout=900))
 GROUPS.append(Group(name="C08/UtilContext.disasm.pages[bounded]", unity="C19/u_util.cpp", entry="h_disasm_pages",
                     functions=[("UtilContext::disasm(uint32_t, uint32_t)", "core/UtilContext.cpp", "harness, bounded")], defines=["WIDTH=1"],
-                    unwind=8, checks=CH, timeout=900, bounded="address ranges touching at most 4 pages of 64 KiB; which pages are in use and their used sub-ranges symbolic"))
+                    unwind=8, checks=CH, timeout=900, bounded="address ranges touching at most 4 pages of 64 KiB anywhere in the 32-bit space (including the last page); which pages are in use and their used sub-ranges symbolic; the unwinding bound is the termination obligation"))
+GROUPS[-1].unwind_is_spec = True
 LEVEL = "proof"
 TRUSTED = ["snprintf/sprintf replaced by a format-aware worst-case contract (contracts/common/st_fmt.c): size argument must fit the destination, output length = sum of per-conversion upper bounds",
            "Memory replaced by a 16-byte symbolic window starting at the instruction's address; an access outside it fails the locality obligation"]
